@@ -413,6 +413,13 @@ def compare(ctx, c, r, mv, mism):
     # a HARD Gumbel sample is a one-hot vector whose position the model does not know (it knows the noise id only): when the
     # model says the coefficients of restored and original are different objects, they can still coincide by chance
     gum_hard = m != 'PIT' and views and views[-1][0] and (o.get('gumbel') or views[-1][3] == 1) and (o.get('hard') or views[-1][2])
+    # ... the same holds for a STALE hard Gumbel sample that the original still carries (disable_sampling switched on after it was
+    # drawn, also in eval mode): a coefficient column the model knows only as "Gumbel sample" and that is one-hot in the implementation
+    if m != 'PIT' and not gum_hard:
+        for mt, it in zip(thetas, r['after_fwd']['thetas']):
+            for (tag, ix, z), col in zip(mt, it):
+                if tag == 3 and len(col) > 1 and abs(max(col) - 1.0) <= 1e-5 and sum(abs(v) for v in col) - max(col) <= 1e-5:
+                    gum_hard = True
     for pi, pr in enumerate('ABC'):
         if pr not in r['eqs']:
             continue
